@@ -7,6 +7,7 @@ operation so that the audit's own reads (path compression!) never perturb the hi
 from __future__ import annotations
 
 import copy
+from fractions import Fraction
 
 import shrink as shr
 from core import Outcome
@@ -119,10 +120,63 @@ def gen_large(rng):
     return {"kind": "fw", "init": init, "ops": ops, "sparse_audit": True}
 
 
+def _all_ranges_exact(vals):
+    """Every contiguous range sum of vals (Fractions) is exactly a double: a plain array then answers exactly, in any order."""
+    n = len(vals)
+    for l in range(n):
+        acc = Fraction(0)
+        for r in range(l, n):
+            acc += vals[r]
+            if Fraction(float(acc)) != acc:
+                return False
+    return True
+
+
+def gen_fw_cancelling(rng):
+    """Floats of very different magnitude that cancel: every contiguous range sum is exactly representable (so the plain-array
+    answer is exact and order-free), but a sum over NON-contiguous elements - something only the tree's internals could form -
+    rounds.  Judged against a Fraction model."""
+    for _ in range(40):
+        n = rng.randrange(2, 13)
+        big = rng.choice([2.0 ** 53, 2.0 ** 52, 1.0, 2.0 ** 60])
+        small = {2.0 ** 53: [1.0, 2.0, 3.0], 2.0 ** 52: [0.5, 1.0, 1.5], 1.0: [2.0 ** -53, 2.0 ** -52], 2.0 ** 60: [128.0, 256.0]}[big]
+        vals = [0.0] * n
+        for _ in range(rng.randrange(1, 4)):
+            i, j = rng.sample(range(n), 2)
+            sg = rng.choice([1, -1])
+            vals[i] += sg * big
+            vals[j] -= sg * big
+        for _ in range(rng.randrange(1, 4)):
+            vals[rng.randrange(n)] += rng.choice(small) * rng.choice([1, -1])
+        if _all_ranges_exact([Fraction(v) for v in vals]):
+            break
+    else:
+        n, vals, big, small = 4, [0.0, 0.0, 0.0, 1.0], 1.0, [1.0]
+    model = [Fraction(v) for v in vals]
+    ops = []
+    for _ in range(rng.randrange(1, 25)):
+        x = rng.random()
+        if x < 0.3:
+            i, d = rng.randrange(n), rng.choice([big, -big] + small) * rng.choice([1, -1])
+            trial = list(model)
+            trial[i] += Fraction(d)
+            if _all_ranges_exact(trial):  # the caller stays inside "exactly representable sums"
+                model = trial
+                ops.append(["update", i, d])
+        elif x < 0.65:
+            ops.append(["prefix", rng.randrange(n)])
+        else:
+            a, b = rng.randrange(n), rng.randrange(n)
+            ops.append(["range_sum", min(a, b), max(a, b)])
+    return {"kind": "fw", "init": vals, "ops": ops, "exact": True}
+
+
 def generate(rng, tier):
     big = tier == "thorough"
     if rng.random() < 0.03:
         return gen_large(rng)
+    if rng.random() < 0.04:
+        return gen_fw_cancelling(rng)
     if rng.random() < 0.5:
         n = rng.choice([0, 1, 2, 3, 4, 5, 6, 8, 12, 16] + ([24, 33] if big else []))
         ops = []
@@ -331,6 +385,8 @@ def _exec_fw(case, o: Outcome):
     src = init if isinstance(init, int) else list(init)  # the caller's own list object, kept and reused below
     ft = FenwickTree(src)
     model = [0] * init if isinstance(init, int) else list(init)
+    if case.get("exact"):
+        model = [Fraction(v) for v in model]  # exact reference (a Fraction compares exactly with a float)
     n = len(model)
     if not isinstance(init, int) and src != list(init):
         o.violate(PROP, "caller_list_modified", f"FenwickTree(values) changed the caller's list from {list(init)} to {src}", target="FenwickTree")
@@ -363,7 +419,7 @@ def _exec_fw(case, o: Outcome):
         got = None
         if name == "update":
             ft.update(op[1], op[2])
-            model[op[1]] += op[2]
+            model[op[1]] += Fraction(op[2]) if case.get("exact") else op[2]
             if queried:
                 updated_after_query = True
         elif name == "prefix":
@@ -397,7 +453,7 @@ def _exec_fw(case, o: Outcome):
                 other = FenwickTree(src)
                 acc = 0
                 for i in range(n):
-                    acc += init[i]
+                    acc += Fraction(init[i]) if case.get("exact") else init[i]
                     if other.prefix(i) != acc:
                         o.violate(PROP, "refinement_broken", f"step {step}: a second FenwickTree built from the same list answers "
                                   f"prefix({i})={other.prefix(i)!r}, initial values give {acc!r}", target="FenwickTree")
